@@ -301,6 +301,34 @@ theorem parseDecimal_frac {dv : Nat → Option Nat} (h : DvOK dv) (ip fp : Str) 
   rw [takeDigits_append h ip _ hip, takeDigits_nondigit 46 _ h46]
   simp
 
+/-! ### below the guard: scientific notation -/
+
+theorem decStr_sci1 (c k : Nat) (h1 : (nstr c).length = 1) (h2 : k ≥ (nstr c).length + 6) :
+    decStr false c (-(k : Int)) = nstr c ++ 69 :: 45 :: nstr (k + 1 - (nstr c).length) := by
+  unfold decStr
+  have c1 : ¬ (-(k : Int) ≤ 0 ∧ -(k : Int) + ((nstr c).length : Int) > -6) := by omega
+  simp only [c1, if_false]
+  have c2 : ¬ ((1 : Int) ≤ 0) := by omega
+  have c3 : ((1 : Int) ≥ ((nstr c).length : Int)) := by omega
+  have c4 : ¬ (-(k : Int) + ((nstr c).length : Int) - 1 = 0) := by omega
+  have c5 : (-(k : Int) + ((nstr c).length : Int) - 1 < 0) := by omega
+  have c6 : (-(k : Int) + ((nstr c).length : Int) - 1).natAbs = k + 1 - (nstr c).length := by omega
+  have c7 : ((1 : Int) - ((nstr c).length : Int)).toNat = 0 := by omega
+  simp [c2, c3, c4, c5, c6, c7]
+
+theorem decStr_sciN (c k : Nat) (h1 : 1 < (nstr c).length) (h2 : k ≥ (nstr c).length + 6) :
+    decStr false c (-(k : Int)) =
+      (nstr c).take 1 ++ 46 :: (nstr c).drop 1 ++ 69 :: 45 :: nstr (k + 1 - (nstr c).length) := by
+  unfold decStr
+  have c1 : ¬ (-(k : Int) ≤ 0 ∧ -(k : Int) + ((nstr c).length : Int) > -6) := by omega
+  simp only [c1, if_false]
+  have c2 : ¬ ((1 : Int) ≤ 0) := by omega
+  have c3 : ¬ ((1 : Int) ≥ ((nstr c).length : Int)) := by omega
+  have c4 : ¬ (-(k : Int) + ((nstr c).length : Int) - 1 = 0) := by omega
+  have c5 : (-(k : Int) + ((nstr c).length : Int) - 1 < 0) := by omega
+  have c6 : (-(k : Int) + ((nstr c).length : Int) - 1).natAbs = k + 1 - (nstr c).length := by omega
+  simp [c2, c3, c4, c5, c6]
+
 /-! ## ISO renderings -/
 
 def d2 (n : Nat) : Str := [48 + n / 10, 48 + n % 10]
